@@ -87,11 +87,27 @@ func (h *Hub) HandleShipHandshakeStateUpdate(ski string, state model.ShipState) 
 	if existingState != pairingState || !errors.Is(existingDetails.Error(), state.Error) {
 		service.SetConnectionStateDetail(pairingDetail)
 
+		h.muxPairingUpdate.Lock()
+		h.pairingUpdateCounter++
+		counter := h.pairingUpdateCounter
+		h.muxPairingUpdate.Unlock()
+
 		// always send a delayed update, as the processing of the new state has to be done
 		// and the SHIP message has to be received by the other service before
 		// acting upon the new state is safe
 		go func() {
 			<-time.After(time.Millisecond * 500)
+
+			// the delayed updates are independent go routines, make sure they are
+			// delivered one at a time and an outdated state is never delivered last
+			h.muxPairingDelivery.Lock()
+			defer h.muxPairingDelivery.Unlock()
+
+			if counter < h.pairingUpdateDelivered[ski] {
+				return
+			}
+			h.pairingUpdateDelivered[ski] = counter
+
 			h.hubReader.ServicePairingDetailUpdate(ski, pairingDetail)
 		}()
 	}
